@@ -9,6 +9,8 @@
 From Coq Require Import String.
 From PB Require Export Model.Satisfaction.
 From PB Require Model.Phragmen.
+From PB Require Model.Analysis.
+From Coq Require Import Qround.
 Open Scope Q_scope.
 
 (* ---------- the abstract data the generated functions range over ---------- *)
@@ -22,6 +24,13 @@ Definition py_aprofile := list aballot.      (* approval profile as the rule mod
 Definition py_dict := string -> option Q.     (* dict with literal string keys and numeric values (precomputed_values) *)
 (* what the MIP solver answers when asked for a knapsack on (weights, budget): its 0/1 vector *)
 Definition py_oracle := list Q -> Q -> list bool.
+
+(* a satisfaction measure object is its [sat] function; a satisfaction class builds one from (instance, profile,
+   ballot as the profile iterates it); a satisfaction profile holds the measure objects with multiplicities *)
+Definition py_satobj := list py_proj -> Q.
+Definition py_satclass := py_inst -> py_profile -> py_pballot -> py_satobj.
+Definition py_satentry := (py_satobj * nat)%type.
+Definition py_satprofile := list py_satentry.
 
 (* a function the translator could not translate: its generated definition has this type, so that exactly
    the theorems that mention it stop type-checking *)
@@ -62,6 +71,20 @@ Definition py_sorted_projects (l : list py_proj) : list py_proj := name_sort l.
 Definition py_in_list (l : list py_proj) (p : py_proj) : bool := memb p l.
 Definition py_proj_eq (p q : py_proj) : bool := Nat.eqb p q.
 
+(* sorted(values) on numbers *)
+Definition py_sorted_nums (l : list Q) : list Q := isort Qleb l.
+(* Python ints used as counts: range(n), combinations(s, r), enumerate *)
+Definition py_nat (x : Q) : nat := Z.to_nat (Qfloor x).
+Definition py_range (n : Q) : list Q := map Qnat (seq 0 (py_nat n)).              (* range(n) *)
+Definition py_enumerate {A} (l : list A) : list (Q * A) := combine (map Qnat (seq 0 (length l))) l.
+(* itertools.combinations(s, r) in itertools order (Base/ListExt.v), chain.from_iterable *)
+Definition py_combinations {A} (l : list A) (r : Q) : list (list A) := combs l (py_nat r).
+Definition py_chain {A} (l : list (list A)) : list A := concat l.
+(* np.median of exact numbers: hand model [Analysis.median]; float(...) of it: the exact value that is then
+   rounded to a double (the theorems speak about the exact value, the correspondence about the double) *)
+Definition py_np_median (l : list Q) : Q := Analysis.median l.
+Definition py_float (x : Q) : Q := x.
+
 (* ---------- projects and instances ---------- *)
 (* project.cost: the projects handed to the functions are the instance's own objects *)
 Definition py_cost (I : py_inst) (p : py_proj) : Q := cost I p.
@@ -99,6 +122,18 @@ Definition py_multiplicity (P : py_profile) (bm : py_pballot) : Q := Qnat (snd b
 Definition py_len_profile (P : py_profile) : Q := Qnat (length P).
 (* profile.approval_score(p) (approval profiles, tie-breaking): hand model [Phragmen.score] *)
 Definition py_approval_score (P : py_aprofile) (p : py_proj) : Q := Phragmen.score P p.
+
+Definition py_len_pballot (bm : py_pballot) : Q := Qnat (length (fst bm)).
+Definition py_num_ballots (P : py_profile) : Q := Qnat (Analysis.num_ballots P).          (* profile.num_ballots() *)
+(* approval_score / total_score of Abstract{Approval,Cardinal}Profile: hand models of Model/Analysis.v *)
+Definition py_profile_approval_score (P : py_profile) (p : py_proj) : Q := Analysis.approval_score P p.
+Definition py_profile_total_score (P : py_profile) (p : py_proj) : Q := Analysis.total_score P p.
+(* profile.as_sat_profile(sat_class): one measure object per ballot the profile iterates over, with its
+   multiplicity; the instance is the one the profile belongs to *)
+Definition py_as_sat_profile (I : py_inst) (P : py_profile) (sc : py_satclass) : py_satprofile :=
+  map (fun bm => (sc I P bm, snd bm)) P.
+Definition py_satprofile_iter (S : py_satprofile) : list py_satentry := S.
+Definition py_satprofile_multiplicity (S : py_satprofile) (e : py_satentry) : Q := Qnat (snd e).
 
 (* ---------- dictionaries with literal string keys and numeric values ---------- *)
 (* d[k] with k absent raises KeyError in Python; here it is 0 (every translated read is of a key the
